@@ -97,6 +97,9 @@ func Run(r *report.Run) int {
 			r.Violation(fmt.Sprintf("C08:%s:%s:%s", s.Shape, site, cls), map[string]any{"case": c, "vs_before": dB, "vs_after": dA})
 		}
 		for _, st := range c.Steps {
+			if st.Slow {
+				r.Inconclusive("step-missed-its-deadline-on-a-slow-machine")
+			}
 			if st.Err == "" {
 				continue
 			}
